@@ -61,6 +61,7 @@ type c11Rec struct {
 	start    time.Time
 	rejected string // a delivery of this run was refused because of this entity
 	killed   bool   // a kill of this run has returned: the run's context is cancelled
+	killedAt time.Time
 }
 
 func (r *c11Run) ev(format string, args ...any) {
@@ -101,7 +102,18 @@ func (t c11Transport) RoundTrip(req *http.Request) (*http.Response, error) {
 	case "fail.sim":
 		return mk(500, []byte(`{"message":"simulated failure"}`)), nil
 	case "slow.sim":
-		time.Sleep(3 * time.Second)
+		select {
+		case <-time.After(3 * time.Second):
+		case <-req.Context().Done():
+			return nil, req.Context().Err()
+		}
+	case "stall.sim":
+		// a remote that has stopped answering: nothing comes for a quarter of an hour, unless the caller gives up
+		select {
+		case <-time.After(15 * time.Minute):
+		case <-req.Context().Done():
+			return nil, req.Context().Err()
+		}
 	}
 	if req.Method == http.MethodGet && req.URL.Hostname() == "tok.sim" {
 		// a source behind a layer that stamps every answer with a fresh continuation token, also the empty ones
@@ -401,6 +413,9 @@ func (r *c11Run) installHooks() {
 				return nil
 			}
 			r.ev("end %s", id)
+			if rec := r.runOf[gid]; rec != nil && rec.killed && time.Since(rec.killedAt) > 5*time.Minute {
+				r.fail(viol("C11", "kill", "killed-run-lingers", "job %s was killed while its run (started %s) held its slot; the run gave the slot back %s of simulated time after the kill had returned", id, rec.start.Format(time.RFC3339Nano), time.Since(rec.killedAt).Round(time.Second)))
+			}
 			r.lastActivity = time.Now()
 			r.active[id]--
 			if full {
@@ -559,6 +574,7 @@ func (r *c11Run) clientOp(op *Op) {
 		if after := cur(); before != nil && after == before {
 			r.mu.Lock()
 			before.killed = true
+			before.killedAt = time.Now()
 			r.Stats["kills_of_a_running_job"]++
 			r.mu.Unlock()
 		}
